@@ -230,6 +230,8 @@ def absorb (v : State) (mop : MOp) (o : ImplObs) : State × List String := Id.ru
   let T := v.target
   let T := match mop with
     | .stop | .advStop _ => { T with manualStop := true }
+    | .fail | .advFail _ => { T with manualFail := true }
+    | .drain | .advDrain _ => { T with draining := true }
     | .kill | .advKill _ => { T with manualKill := true }
     | _ => T
   let T := { T with handled := T.handled ++ o.hd }
@@ -279,6 +281,7 @@ def step (st : DState) (op impl : String) : DState × StepOut :=
           -- delivery level: a message (timer id, k) handled twice
           ++ (if deliveredOk v' then [] else ["C12.delivered handled-twice"])
           ++ (if sentBeforeCloseOk v' then [] else ["C12.delivered sent-after-close"])
+          ++ (if reasonSrcOk v' then [] else ["C12.reason no-source"])
           -- a running target has handled every attempt by the quiescent point
           ++ (if allHandledOk v' then [] else ["C12.delivered attempt-not-handled"])
           ++ (if okPrompt1 v' then [] else [s!"C12.okPrompt {firstBad v' timerPromptOk}"])
